@@ -68,7 +68,7 @@ ASSUMPTIONS = [
     "direct_history: only values returned by accessors (aberration_coefs, current_aberrations) and the dictionary passed to the constructor are edited by the harness; the public dataclass fields of HyperparameterState are state, not copies, and are not edited; after a cross-correlation fit the fitted symbols C10/C12/phi12 are not judged",
     "standardize_aberration_coefs returns float32 tensors: coefficient values judged at 1e-5 relative (float32 rounding 6e-8); the surface of float32-rounded coefficients at 5e-5 of the sum of term magnitudes (rounded angles enter as m*dphi, hard limit 1.1e-6, measured 1.7e-7; a sign error of the alias is >= 1e-2)",
 ]
-BUDGET = {"quick": {"soft_s": 100}, "thorough": {"soft_s": 700}}
+BUDGET = {"quick": {"soft_s": 300}, "thorough": {"soft_s": 1200}}
 MIN_EVALUATIONS = {"quick": 600, "thorough": 6000}
 REQUIRED_COUNTERS = [
     "eval:surface_vs_series",
